@@ -11,3 +11,7 @@ check("C03",
       "Complete enumeration of all 65536 (header, endpoint state) pairs over Fin x Rsv x OpCode x Masked x 8 length classes x 16 states against the RFC rule list (accept iff no rule broken; a rejection must name a broken rule), all 65536 close codes x 7 reasons against the code table, all status/opcode predicates, and NewCloseFrameBody/Parse/Put for 7 codes x reason lengths 0..130 (ASCII and multibyte across the crop).",
       "Trusts refmodel.CheckRules / CloseCodeClass (written from RFC 6455 5.2, 5.5, 7.4) and unicode/utf8.",
       "exhaustive input-product enumeration on the real code against a rule-list reference", "4/C03")
+check("C04",
+      "Every RFC-valid frame stream up to depth 4 (5 thorough) generated from the message state machine (data fragments incl. empty ones, interleaved control frames, both sides, masked per side) is pushed through 12 consumer drivers (Reader loop with caller buffers 1/2/7/512, Discard after 0/1 bytes, NextReader, ReadMessage, ReadData and the Client/Server Data/Text/Binary variants) under uniform transport chunk sizes inf/1/2/3/5; for depth<=2 (3) every possible split of the transport into reads is explored with a state key that fingerprints the complete live Reader, and for the helpers that hide their Reader every placement of up to 2 (3) short reads. Oracle: the list-of-messages reference model.",
+      "Streams are exhaustive only up to the stated depth and payload alphabet (0/1/3-byte data payloads, 2/0/125-byte controls); the state-key soundness rests on the fingerprint covering every field reachable from the Reader plus the driver's own observations.",
+      "bounded-exhaustive history enumeration + exhaustive environment (short-read) choice tree with state-key pruning, on the real code against a reference model", "4/C04")
